@@ -88,6 +88,13 @@ Definition count_events (tr : list titem) : nat :=
 Definition table_strategy (tbl : list (nat * list action)) : strategy :=
   fun tr => let i := (count_events tr - 1)%nat in
             match find (fun p => Nat.eqb (fst p) i) tbl with Some (_, acts) => acts | None => [] end.
+(* () = zlib error; (out) = inflated; (out 1) = inflated, and the peer ended its DEFLATE stream in this message *)
+Definition un_zres (s : sx) : option (bytes * bool) :=
+  match un_L s with
+  | [x] => Some (un_B x, false)
+  | x :: _ :: _ => Some (un_B x, true)
+  | [] => None
+  end.
 Definition un_wres (s : sx) : wres := match un_N s with 0 => WOk | 1 => WOSErr | _ => WExc end.
 
 (* (10 cfg connect steps app keys wfaults ztape ctape) -> trace, oldest first *)
@@ -97,7 +104,7 @@ Definition cmd_run (args : list sx) : sx :=
   let steps := map un_step (un_L (nth_sx args 2)) in
   let tbl := map (fun s => (un_nat (nth_sx (un_L s) 0), map un_action (un_L (nth_sx (un_L s) 1)))) (un_L (nth_sx args 3)) in
   let c0 := init (map un_B (un_L (nth_sx args 4))) (map un_wres (un_L (nth_sx args 5)))
-                 (map un_optB (un_L (nth_sx args 6))) (map un_B (un_L (nth_sx args 7))) in
+                 (map un_zres (un_L (nth_sx args 6))) (map un_B (un_L (nth_sx args 7))) in
   let c := run cf (table_strategy tbl) c0 cn steps in
   L (map sx_titem (rev (k_tr c))).
 
